@@ -915,7 +915,8 @@ async fn c12_small_messages(seed: u64, report: &mut Report) {
     server.shutdown();
 }
 
-const BLOB_SIZES: [usize; 16] = [0, 1, 3, 15, 16, 17, 255, 256, 257, 4095, 4096, 4097, 65_536, 300_000, 1 << 20, 2 << 20];
+// (16 KiB = one HTTP/2 DATA frame: sizes that travel as exactly one, two, three and four chunks are all there)
+const BLOB_SIZES: [usize; 24] = [0, 1, 3, 15, 16, 17, 255, 256, 257, 4095, 4096, 4097, 16_300, 16_384, 20_000, 24_576, 32_700, 33_000, 49_152, 65_536, 300_000, 1 << 20, 2 << 20, 50_000];
 
 /// Independent bitwise CRC-32 (IEEE, reflected), not the crate the code uses.
 pub fn crc32(b: &[u8]) -> u32 {
@@ -1778,17 +1779,21 @@ pub fn c14_tcp_faults(args: &Args) {
             let mut rng = rng_for(seed, 0xC14_FA17, b);
             let n = rng.gen_range(4..40);
             // 0 none, 1 cut with FIN, 2 cut with RST, 3 stall shorter than the timeout, 4 stall longer than the timeout,
-            // 5 stall (1.5 s) that begins in the middle of the replies: after 1 B..300 KiB have gone back to the clients
-            let action = *[0u8, 1, 1, 1, 2, 2, 2, 3, 4, 5].choose(&mut rng).unwrap();
+            // 5 stall (1.5 s) that begins in the middle of the replies: after 1 B..300 KiB have gone back to the clients,
+            // 6 the same with a 1 s timeout and handlers that take 700..900 ms, so that the response head arrives LATE
+            //   but in time and the stall then falls into the body: the whole exchange is still bounded by ONE timeout
+            let action = *[0u8, 0, 1, 1, 1, 2, 2, 2, 3, 4, 5, 5, 6].choose(&mut rng).unwrap();
+            let timeout = if action == 6 { Duration::from_millis(1_000) } else { timeout };
             let at = Duration::from_micros(rng.gen_range(0..30_000));
             let stall = Duration::from_millis(match action {
                 3 => rng.gen_range(20..150),
                 5 => 1_500,
+                6 => 1_800,
                 _ => rng.gen_range(300..600),
             });
             ctl.rst.store(action == 2, SeqCst);
             lag_ms.store(0, SeqCst);
-            if action == 5 {
+            if action == 5 || action == 6 {
                 ctl.stall_after_reply_bytes.store(rng.gen_range(1..300_000), SeqCst);
             }
             let mut hs = Vec::new();
@@ -1800,9 +1805,10 @@ pub fn c14_tcp_faults(args: &Args) {
                 configured.set_timeout(timeout);
                 let client = configured.clone();
                 let (d, mut l) = (rng.gen_range(0..25_000u32), *[0u32, 1, 16, 100, 4_096, 65_536].choose(&mut rng).unwrap());
-                if action == 5 {
+                if action == 5 || action == 6 {
                     l = *[65_536u32, 200_000, 400_000].choose(&mut rng).unwrap();
                 }
+                let d = if action == 6 { rng.gen_range(700_000..900_000u32) } else { d };
                 let jitter = Duration::from_micros(rng.gen_range(0..20_000));
                 // one request in five is answered with a handler ERROR carrying a message of that length
                 let fail = rng.gen_bool(0.2);
@@ -1840,7 +1846,7 @@ pub fn c14_tcp_faults(args: &Args) {
                         ctl2.hold.store(false, SeqCst);
                         1
                     },
-                    5 => {
+                    5 | 6 => {
                         // the forwarder stalls by itself in mid-reply; release it after the stall time
                         tokio::time::sleep(stall).await;
                         let hit = ctl2.stall_after_reply_bytes.swap(-1, SeqCst) < 0;
@@ -1861,7 +1867,7 @@ pub fn c14_tcp_faults(args: &Args) {
             let acted = nemesis.await.unwrap_or(0);
             if acted > 0 {
                 out.nontrivial = Some(hash_of(&("tcp-fault-batch", b, action)));
-                out.count(match action { 1 => "cuts_fin", 2 => "cuts_rst", 3 => "short_stalls", 4 => "long_stalls", _ => "stalls_in_mid_reply" }, 1);
+                out.count(match action { 1 => "cuts_fin", 2 => "cuts_rst", 3 => "short_stalls", 4 => "long_stalls", 5 => "stalls_in_mid_reply", _ => "stalls_in_mid_reply_after_a_late_head" }, 1);
             }
             // handlers of cut requests may still be running: let them finish before counting invocations
             tokio::time::sleep(Duration::from_millis(30)).await;
@@ -1912,12 +1918,14 @@ pub fn c14_tcp_faults(args: &Args) {
                 }
                 // real time: a bound of timeout + 750 ms, and only when this process' own scheduling lag
                 // (5 ms ticker) stayed under 150 ms during the batch; otherwise nothing is concluded
-                if took > timeout + Duration::from_millis(750) {
+                // (with the 1 s timeout of action 6 the margin is 450 ms: a clock restarted at the response head
+                // would answer after 700..900 ms + 1 s)
+                if took > timeout + Duration::from_millis(if action == 6 { 450 } else { 750 }) {
                     let lag = lag_ms.load(SeqCst);
                     if lag < 150 {
                         out.violate(
-                            if action == 5 { "C14:answer-later-than-the-configured-timeout:stall-in-mid-reply:real-tcp" } else { "C14:answer-later-than-the-configured-timeout:real-tcp" },
-                            json!({"request": id, "took_ms": took.as_millis() as u64, "timeout_ms": 250, "batch": b, "action": action, "outcome": outcome, "reply_len": l, "max_scheduling_lag_ms": lag}),
+                            if action == 5 || action == 6 { "C14:answer-later-than-the-configured-timeout:stall-in-mid-reply:real-tcp" } else { "C14:answer-later-than-the-configured-timeout:real-tcp" },
+                            json!({"request": id, "took_ms": took.as_millis() as u64, "timeout_ms": timeout.as_millis() as u64, "batch": b, "action": action, "outcome": outcome, "reply_len": l, "max_scheduling_lag_ms": lag}),
                         );
                     } else {
                         out.count("late_answers_not_judged_because_of_scheduling_lag", 1);
@@ -1951,5 +1959,6 @@ pub fn c14_tcp_faults(args: &Args) {
     report.floor("timeouts", 20);
     report.floor("connection_errors", 20);
     report.floor("stalls_in_mid_reply", 8);
+    report.floor("stalls_in_mid_reply_after_a_late_head", 5);
     report.finish(args);
 }
